@@ -213,3 +213,8 @@ Fixpoint render (lvl : nat) (e : expr) : list tok :=
   end.
 
 Definition render_min (e : expr) : list tok := render 0 e.
+
+(* f:in(e1, .., en) at token level: the parenthesised disjunction ( e1 or .. or en ) — this is
+   what parseFilterIn builds (root = OR(root, member)) and what the glue of Lexer.v emits *)
+Definition in_expr (e1 : expr) (es : list expr) : expr := fold_left EOr es e1.
+Definition in_toks (e1 : expr) (es : list expr) : list tok := paren (render_min (in_expr e1 es)).
